@@ -703,6 +703,10 @@ def run_line_cases(ctx, cases):
         try:
             x, info, log = call(case, s, case['K'])
             it['x'], it['log'] = x, log
+            if info == -1 and len(log) < case['K']:
+                # e.g. minimal_residual: <M A z, z> < 0 is possible for Hermitian positive definite A and M that do not
+                # commute; the solver then stops ("indefinite matrix"): no step is taken, nothing to judge for C07
+                ctx.feat(f'{solver}-stopped-with-status--1')
             it['first'] = len(lines)
             prev = s.x0d
             for xj in log:
